@@ -111,6 +111,111 @@ def _writing_disk():
     return _WD[0]
 
 
+def bad_argument_probe():
+    """calls that fail on a bad ARGUMENT with a file-sized value in hand (an unknown queue side, a tag or
+    key that cannot be bound): the call raises and counters, rows and files still agree - nothing is left
+    behind (finding D25, fixed: push looked its side up after writing the value file)"""
+    import shutil
+    import tempfile
+    import diskcache
+    root = os.environ.get('VERIF_SCRATCH') or tempfile.gettempdir()
+    bad = []
+    big = b'x' * 40000
+    calls = [
+        ('push(big, side="bak")', lambda c: c.push(big, side='bak')),
+        ('push(big, tag=[1])', lambda c: c.push(big, tag=[1])),
+        ('set(k, big, tag=[1])', lambda c: c.set('k', big, tag=[1])),
+        ('add(k, big, tag={})', lambda c: c.add('k2', big, tag={})),
+        ('set(k, big, expire="x")', lambda c: c.set('k3', big, expire='x')),
+        ('push(big, expire="x")', lambda c: c.push(big, expire='x')),
+        ('pull(side="bak")', lambda c: c.pull(side='bak')),
+        ('pop of an item whose pickle file was truncated behind the library\'s back', 'corrupt_pop'),
+        ('pull of such an item', 'corrupt_pull'),
+    ]
+    for name, fn in calls:
+        d = tempfile.mkdtemp(prefix='c8arg-', dir=root)
+        try:
+            c = diskcache.Cache(d)
+            c.push('q')
+            if fn in ('corrupt_pop', 'corrupt_pull'):
+                # the row goes (the removal commits), the load of the value fails: the file must go too
+                if fn == 'corrupt_pop':
+                    c.set('p', list(range(30000)))
+                else:
+                    c.pull()
+                    c.push(list(range(30000)))
+                vals = [os.path.join(dp, f) for dp, dn, fs in os.walk(d) for f in fs if f.endswith('.val')]
+                with open(vals[0], 'r+b') as fh:
+                    fh.truncate(100)
+                fn = (lambda c: c.pop('p')) if fn == 'corrupt_pop' else (lambda c: c.pull())
+            raised = None
+            try:
+                fn(c)
+            except Exception as e:  # noqa
+                raised = type(e).__name__
+            warns = [str(w.message).split(':')[0] for w in c.check() if 'empty directory' not in str(w.message)]
+            if warns:
+                bad.append('%s %s and left an inconsistency behind: check() reports %r' % (
+                    name, 'raised ' + raised if raised else 'returned', warns[:3]))
+            c.close()
+        except Exception as e:  # noqa
+            bad.append('bad-argument probe (%s) raised %s: %s' % (name, type(e).__name__, str(e)[:100]))
+        finally:
+            shutil.rmtree(d, ignore_errors=True)
+    return bad
+
+
+def relative_dir_probe():
+    """a cache opened by a RELATIVE path: writes that fail part-way (text with a lone surrogate on the file
+    path, a stream whose read() raises) leave nothing behind there either - partial files are removed by the
+    path they were written to, not by a path joined onto the directory a second time"""
+    import io
+    import shutil
+    import tempfile
+    import diskcache
+    root = os.environ.get('VERIF_SCRATCH') or tempfile.gettempdir()
+    base_dir = tempfile.mkdtemp(prefix='c8rel-', dir=root)
+    bad = []
+    cwd = os.getcwd()
+
+    class Flaky(io.RawIOBase):
+        def __init__(self):
+            self.n = 0
+
+        def readable(self):
+            return True
+
+        def read(self, size=-1):
+            self.n += 1
+            if self.n > 1:
+                raise IOError('stream broke')
+            return b'z' * 5000
+    try:
+        os.chdir(base_dir)
+        c = diskcache.Cache('rel-cache', disk_min_file_size=8)
+        c.set('ok', b'V' * 40)
+        for name, fn in (('text with a lone surrogate', lambda: c.set('t', 'ab\ud800' * 20000)),
+                         ('stream that breaks', lambda: c.set('s', Flaky(), read=True)),
+                         ('push of such a text', lambda: c.push('cd\udfff' * 20000))):
+            raised = None
+            try:
+                fn()
+            except Exception as e:  # noqa
+                raised = type(e).__name__
+            warns = [str(w.message).split(':')[0] for w in c.check() if 'empty directory' not in str(w.message)]
+            if warns or not raised:
+                bad.append("cache opened by a relative path, %s: %s; check() afterwards reports %r" % (name, 'raised ' + raised if raised else 'did not raise', warns[:3]))
+        if c.get('ok') != b'V' * 40:
+            bad.append('cache opened by a relative path: an undamaged item is no longer readable')
+        c.close()
+    except Exception as e:  # noqa
+        bad.append('relative-directory probe raised %s: %s' % (type(e).__name__, str(e)[:100]))
+    finally:
+        os.chdir(cwd)
+        shutil.rmtree(base_dir, ignore_errors=True)
+    return bad
+
+
 def open_race_probe():
     """a handle being opened (Cache(directory), unpickling, a FanoutCache shard) while ANOTHER client
     commits writes: afterwards counters, rows and files must agree.  The write is made to happen in the
@@ -194,13 +299,21 @@ def fault_case(args):
     if tier == 'quick' and len(inject) > 30:
         inject = sorted(rng.sample(inject, 30))
     results = []
-    for n in inject:
+    # a PERSISTENT fault as well: from a chosen file-creation on, the next twelve attempts to create a value file all fail
+    # (the library retries a failing open up to ten times; when it gives up the call must raise and nothing may be stored)
+    fw_points = [i for i in inject if acts[i][0] == 'fw']
+    persist_points = set(fw_points if tier != 'quick' else fw_points[:4])
+    for n, persist in [(n, False) for n in inject] + [(n, True) for n in sorted(persist_points)]:
         d = tempfile.mkdtemp(prefix='c8-', dir=root)
         cnt = [-1]
         fired = [False]
+        left = [12]
 
-        def hook(kind, detail):
+        def hook(kind, detail, n=n, persist=persist):
             cnt[0] += 1
+            if persist and fired[0] and kind == 'fw' and left[0] > 0:
+                left[0] -= 1
+                raise OSError(24, 'injected persistent fault')
             if cnt[0] == n and not fired[0]:
                 fired[0] = True
                 if kind == 'sql':
@@ -254,6 +367,8 @@ def fault_case(args):
         finally:
             env.rec.on_action = None
             shutil.rmtree(d, ignore_errors=True)
+        if why and persist:
+            why = 'with the fault persisting for the next 12 file creations: ' + why
         results.append({'n': n, 'act': acts[n], 'why': why})
     return {'seed': seed, 'units': units, 'results': results}
 
@@ -279,6 +394,11 @@ def run(tier, seed, rng, known, replay):
     r = base.check_histories('C08', hists, ('result', 'state'), acceptor=acceptor, known=known)
     dist, distinct = base.op_distribution(hists, r['impl_out'])
     violations = list(r['violations'])
+    from props import c06 as _c06
+    for v in _c06.incr_block_probe()[:2]:
+        violations.append({'replay': {'property': 'C08', 'kind': 'incr-block-probe', 'acceptor': v}, 'found_input': True, 'what': v})
+    for v in (bad_argument_probe() + relative_dir_probe())[:3]:
+        violations.append({'replay': {'property': 'C08', 'kind': 'bad-argument-probe', 'acceptor': v}, 'found_input': True, 'what': v})
     for v in open_race_probe()[:2]:
         violations.append({'replay': {'property': 'C08', 'kind': 'open-race-probe', 'acceptor': v}, 'found_input': True, 'what': v})
     n_cases = 32 if tier == 'quick' else 300
